@@ -17,8 +17,8 @@ PROPS = {}
 # properties not claimed (yet or ever), with the one-line reason that goes into MANIFEST.not_applicable
 _WIP = "check not built yet in this round (planned, see DESIGN.md section 5)"
 NOT_APPLICABLE = {
-    "C02": _WIP, "C04": _WIP, "C06": _WIP,
-    "C11": _WIP, "C12": _WIP, "C15": _WIP,
+    "C02": _WIP, "C06": _WIP,
+    "C11": _WIP, "C12": _WIP,
     "C03": "accept/reject and AST construction live in a proc-macro-generated PEG parser over `str`; Verus cannot reason about str/macro output and Kani cannot carry a symbolic text past the mandatory header, so no contract within reach states 'accepts exactly this language'",
     "C16": "composes core::fmt/pad string formatting with the pest parser over all ASTs; both halves are str-level and outside what Verus accepts or Kani can bound meaningfully",
     "C17": "behaviour is spread over crossterm event polling, tui rendering, a nom grammar over str and a filesystem completer: terminal/filesystem effects and string combinators neither verifier can execute or specify",
@@ -176,9 +176,11 @@ def _select_c01(allh, tier, seed):
     return core + rest[:6]
 
 
-def _pregen_c01(stage, native_run):
+def _pregen_c01(stage, native_run, extra=()):
     import os
     out = native_run(stage, "verif_replay_c01", "gen_c01_paths")
+    for (entry, fn) in extra:
+        out += "\n" + native_run(stage, entry, fn)
     paths = {}
     for l in out.splitlines():
         p = l.split()
@@ -210,4 +212,60 @@ PROPS["C01"] = {
     "trusted": ["kani::stub stand-ins for Board::set_digital_output1/2 and Board::get_fan_period inside the instruction triples (uninterpreted-board abstraction; real behaviour = C14)",
                 "the wait-consuming clock edge is used through its contract C05.E.wait / C15.E.wait (proved on the real function)"],
     "assumptions": ["WLOG boundary word 0x006 (all fetch words proved identical)", "no pending key interrupt during the triple (interrupt entry is C04's triple)"],
+}
+
+C15_QUICK = ["c15_wait_consumed", "c15_wait_generated", "c15_data_dependent_counts", "c15_loop_words_have_no_bus_access", "c15_canary",
+             "c15_nop", "c15_push", "c15_pop", "c15_call", "c15_reti", "c15_neg", "c15_sub", "c15_and", "c15_xor", "c15_src_inc", "c15_src_dinc",
+             "c15_mov_ind", "c15_mov_dinc", "c15_cmp_inc", "c15_bitt_dinc", "c15_ldsp", "c15_bits_ind", "c15_bitc_dinc"]
+
+
+def _select_c15(allh, tier, seed):
+    if tier != "quick":
+        return allh
+    import random
+    core = [h for h in allh if h in C15_QUICK]
+    rest = [h for h in allh if h not in C15_QUICK and not h.startswith("gen_")]
+    random.Random(seed).shuffle(rest)
+    return core + rest[:5]
+
+
+PROPS["C15"] = {
+    "inject": C01_INJECT + [("emulator-2a-lib/src/machine/raw/mod.rs", "c15_cycles.rs", "verif_c15")],
+    "pregen": _pregen_c01,
+    "groups": [{"match": "c15_(wait|data|loop|canary)", "flags": []},
+               {"match": ".*", "flags": ["-Z", "stubbing", "--no-memory-safety-checks", "--no-overflow-checks"]}],
+    "select": _select_c15,
+    "functions": ["RawMachine::trigger_clock_edge (wait generation in read_from_memory / write_to_memory, wait consumption)", "MicroprogramRam::CONTENT"],
+    "timeout": 900,
+    "technique": "single-edge contracts for wait generation/consumption over a fully symbolic machine + per-form pinned-path obligations (same micro-path for all data, one wait per RAM-access word) + committed per-form word counts, Kani/CBMC",
+    "level_text": "Proof: (1) a pending wait is consumed by exactly one edge that changes nothing else; (2) an executed word leaves a wait pending iff it drives the bus at an address <= 0xEF; (3) for each instruction form the real machine follows one certified micro-path for all data, each word generating exactly the predicted wait, hence edges = words + RAM accesses; (4) words per form equal the committed table.",
+    "level_note": "Trusted: Kani/CBMC, rustc; the per-form word table in contracts/c15_cycles.rs is transcribed from the microprogram listing (it is the 'documented path' oracle); board float operations stubbed in the per-form harnesses (as in C01). MUL/DIV: per-pass counts; the closed form over all operand pairs follows from C01's loop contracts.",
+    "samples": [{"obligation": "C15.E.waitgen.wait-iff-ram-access", "text": "Running & no wait ==> after edge: wait pending <=> (BUSEN|BUSWR of executed word) & A-register <= 0xEF", "domain": "fully symbolic wf machine"}],
+    "trusted": ["kani::stub stand-ins for three float-heavy Board operations inside the per-form harnesses"],
+    "assumptions": [],
+}
+
+
+def _pregen_c04(stage, native_run):
+    info = _pregen_c09(stage, native_run)
+    info.update(_pregen_c01(stage, native_run, extra=[("verif_replay_c04", "gen_c04_paths")]))
+    return info
+
+
+PROPS["C04"] = {
+    "inject": C01_INJECT + [("emulator-2a-lib/src/machine/raw/mod.rs", "c09_seq.rs", "verif_c09"),
+                            ("emulator-2a-lib/src/machine/raw/mod.rs", "c04_int.rs", "verif_c04")],
+    "pregen": _pregen_c04,
+    "groups": [{"match": "c04_entry|c01_reti", "flags": ["-Z", "stubbing", "--no-memory-safety-checks", "--no-overflow-checks"]},
+               {"match": ".*", "flags": []}],
+    "select": lambda allh, tier, seed: [h for h in allh if h.startswith("c04_") or h == "c01_reti" or h in ("c09_step", "c09_init")],
+    "functions": ["RawMachine::trigger_key_edge_interrupt", "RawMachine::trigger_clock_edge (fetch_interrupts, update_word: interrupt branch and flip-flop clear)",
+                  "Signals::address_logic_1/2, interrupt_logic_1", "interrupt entry micro-routine 0x010-0x017", "RETI micro-routine"],
+    "timeout": 900,
+    "technique": "contract on the key trigger (postcondition + whole-state frame), interrupt clause of the clock edge over all certified control states, Hoare triples for the entry routine and RETI on the real clock edge, Kani/CBMC; transparency by composition (argued)",
+    "level_text": "Proof of the per-call obligations: the key sets the flip-flop iff enabled and touches nothing else; an edge changes the flip-flop only at an end-of-instruction sampling word, takes the interrupt there iff pending and IE, clears it exactly then, and int-words are entered in no other way; the entry routine pushes FR and the next instruction's address, disables interrupts and continues at 2; RETI restores PC and FR. 'Whatever cycle the key is pressed in' follows because every non-sampling edge (incl. wait edges) keeps the flip-flop.",
+    "level_note": "Trusted: Kani/CBMC, rustc, C09's certificate (re-checked here: c09_step). The whole-run transparency statement (interrupted run == uninterrupted run for a register-preserving handler) is the composition of I.entry, the handler's own triples and I.reti: argued, not machine-checked. The case 'pending, IE clear, at a sampling word' is unconstrained (statement silent; the code drops the press).",
+    "samples": [{"obligation": "C04.E.int.flip-flop-kept-until-sampled", "text": "executed word is not an end-of-instruction branch ==> flip-flop' == flip-flop", "domain": "all certified (micro-address, IR) x fully symbolic data"}],
+    "trusted": ["kani::stub stand-ins for three float-heavy Board operations inside the entry/RETI triples"],
+    "assumptions": [],
 }
